@@ -1,1 +1,2 @@
+import Driver.Dap4
 import Driver.Slice
